@@ -266,21 +266,38 @@ def stateful_case(p, res):
         ("HysteresisThresholder", lambda: S.HysteresisThresholder(input_type=S.InputType.LLR), lambda m: m.reset_state()),
         ("DynamicThresholder", lambda: S.DynamicThresholder(input_type=S.InputType.LLR), lambda m: m.reset_stats(0.5)),
     ):
+        held = {}
+
         def opx(t):
             def f(m):
-                m(t)
+                t0 = t.clone()
+                out = m(t)
+                held.setdefault(id(m), []).append((out, out.clone(), t, t0))       # decisions handed out earlier stay what they were
             return f
         ops = [(f"call(x{i})", opx(t)) for i, t in enumerate(pool)] + [("reset", reset)]
+
+        def mk_(mk=mk):
+            m = mk()
+            held[id(m)] = []
+            return m
 
         def on_tr(names, m, obs, name=name, reset=reset):
             if isinstance(obs, Exception):
                 res.viol(name, "history", "raises", f"history {list(names)}: {type(obs).__name__}: {obs}")
                 return
+            for j, (o, o0, t, t0) in enumerate(held.get(id(m), [])):
+                if not torch.equal(o, o0):
+                    res.viol(name, "history", "polarity", f"history {list(names)}: the decisions returned by call {j + 1} were {o0.reshape(-1).tolist()} and read {o.reshape(-1).tolist()} after the later calls", {"history": list(names)})
+                    break
+                if not torch.equal(t, t0):
+                    res.viol(name, "history", "polarity", f"history {list(names)}: the LLRs given to call {j + 1} were modified", {"history": list(names)})
+                    t.copy_(t0)
+                    break
             reset(m)
             out = m(probe).reshape(-1).tolist()
             if out != want:
                 res.viol(name, "history", "after-reset", f"after history {list(names)} + reset: LLRs {probe.tolist()} -> {out}, expected {want}", {"history": list(names)})
-        st = bfs.explore(mk, ops, depth, lambda m: bfs.canon_module(m), on_tr)
+        st = bfs.explore(mk_, ops, depth, lambda m: bfs.canon_module(m), on_tr)
         res.ev(st["transitions"], nontrivial=st["transitions"], states=st["states"], transitions=st["transitions"])
         res.bump("bfs_states", st["states"])
     res.sample({"stateful": ["HysteresisThresholder", "DynamicThresholder"], "depth": depth})
